@@ -7,7 +7,7 @@ META = dict(
     level="proof",
     claim="IEEE binary32/binary64 part of the property, bit-exact on CBMC's IEEE-754 semantics: every conversion between float/double and every integer type (and between the two formats) emitted by the real cast() yields the C11 6.3.1.4/6.3.1.5 value for every source value where it is defined; + - * / == != < <= unary minus and logical not emitted by the real gen_expr equal the IEEE operation for all operands including infinities, signed zeros and NaN operands of comparisons; truth tests treat NaN as true (C03 jobs with float/double conditions).",
     note="Trusted: CBMC's float model (round-to-nearest-even), ghost x86 machine SSE semantics (SDM). Not covered: long double (x87 80-bit) value semantics (outside CBMC's model; only stack discipline, C20), NaN payload propagation, floating constants' decimal-to-binary rounding (libc strtold), floating constant folding.",
-    functions=["codegen.c:cast", "codegen.c:gen_expr", "codegen.c:cmp_zero", "codegen.c:pushf", "codegen.c:popf", "codegen.c:getTypeId"],
+    functions=["codegen.c:cast", "codegen.c:gen_expr", "codegen.c:cmp_zero", "codegen.c:pushf", "codegen.c:popf", "codegen.c:getTypeId", "type.c:add_type", "type.c:get_common_type", "type.c:usual_arith_conv"],
     trusted_base=["CBMC 6.11 floating-point decision procedure", "spec/x86_ghost.h"],
     assumptions=["operands are abstract side-effect-free expressions"],
 )
@@ -30,6 +30,9 @@ def jobs(tier):
             if ft == 12 and k in ("ND_MUL", "ND_DIV"):
                 continue
             js.append(Job(name=f"fop-{k}-{TI[ft]}", src="../C01/fop.c", group="C02.2 SSE arithmetic and comparison", defs={"KIND": k, "FT": str(ft)},
-                          tier="quick" if ((ft == 12 or k in ("ND_LT", "ND_EQ", "ND_ADD")) and k not in ("ND_MUL", "ND_DIV")) else "thorough",
+                          tier="quick" if ((ft == 12 or k in ("ND_LT", "ND_EQ", "ND_ADD", "ND_NOT")) and k not in ("ND_MUL", "ND_DIV")) else "thorough",
                           sample=f"gen_expr({k}) on {TI[ft]} operands, all bit patterns", **CG))
+    for k in ("ND_ADD", "ND_SUB", "ND_MUL", "ND_DIV", "ND_EQ", "ND_LT", "ND_COND"):
+        js.append(Job(name=f"typingf-{k}", src="../C01/typing.c", group="C02.6 floating rank", defs={"KIND": k, "TMAX": "12"}, units=["parse.c"], mode="plain",
+                      cut=["error", "error_tok", "error_at", "warn_tok"], timeout=180, sample=f"add_type({k}) with at least one floating operand, every type pair"))
     return js
